@@ -458,9 +458,9 @@ def classify(msg):
         return "NotFound"
     if "Type error:" in msg:
         return "TypeErr"
-    if re.search(r"Nulls are not allowed|ConvertError|TypeFail:|FormatError", msg):
-        return "Convert"      # raised by a converter (runtime.rs:335-337 passes its message through)
-    return "Other"
+    # what is left is the free text of a converter (runtime.rs passes the converter's message through):
+    # "Nulls are not allowed in Toml Conversions!", "TypeFail: XML outputs must be a Tuple", ...
+    return "Convert"
 
 
 def split_segments(text, keyword, args):
